@@ -64,14 +64,18 @@ def leading_deficient(A):
 
 
 def degenerate(A):
+    """'' / 'degenerate-spectrum' (a repeated non-zero singular value) / 'degenerate-null-space' (only a null space of
+    quaternion dimension >= 2): the classes of the recorded Q-SVD findings"""
     s = osvals(A)
     m, n = A.shape[:2]
     if len(s) == 0 or s[0] == 0:
-        return True
+        return "degenerate-null-space" if max(m, n) >= 2 else ""
     nz = s[s > 1e-10 * s[0]]
     rep = any(abs(nz[i] - nz[i + 1]) <= 1e-6 * s[0] for i in range(len(nz) - 1))
     r = len(nz)
-    return rep or (m - r) >= 2 or (n - r) >= 2
+    if rep:
+        return "degenerate-spectrum"
+    return "degenerate-null-space" if ((m - r) >= 2 or (n - r) >= 2) else ""
 
 
 class Out:
@@ -340,7 +344,7 @@ def j_qsvd_full(name, fn, pre, kw, out):
         return []
     U, s, V = F(np.asarray(out[0])), np.asarray(out[1], dtype=float), F(np.asarray(out[2]))
     m, n = A.shape[:2]
-    o = Out("C05", "classical_qsvd_full", "degenerate-spectrum" if degenerate(A) else "simple-spectrum", {"shape": [m, n], "repo_test": True})
+    o = Out("C05", "classical_qsvd_full", degenerate(A) or "simple-spectrum", {"shape": [m, n], "repo_test": True})
     o.eqint("Shapes", [list(U.shape[:2]), list(V.shape[:2])], [[m, m], [n, n]])
     if [list(U.shape[:2]), list(V.shape[:2])] != [[m, m], [n, n]]:
         return [o]
@@ -373,7 +377,7 @@ def j_qsvd_trunc(name, fn, pre, kw, out):
         o = Out("C12", name, "rank-deficient-sketch-or-repeated-values" if dg else "full-rank-sketch-simple-spectrum",
                 {"shape": [m, n], "R": Rk, "oversample": P, "repo_test": True})
     else:
-        o = Out("C05", "classical_qsvd", "degenerate-spectrum" if degenerate(A) else "simple-spectrum", {"shape": [m, n], "R": Rk, "repo_test": True})
+        o = Out("C05", "classical_qsvd", degenerate(A) or "simple-spectrum", {"shape": [m, n], "R": Rk, "repo_test": True})
     o.eqint("Shapes", [list(U.shape[:2]), list(V.shape[:2])], [[m, Rk], [n, Rk]])
     if [list(U.shape[:2]), list(V.shape[:2])] != [[m, Rk], [n, Rk]]:
         return [o]
